@@ -1,5 +1,7 @@
 """Self-test corpus for C04: text edits on a scratch overlay (never on /repo)."""
 CIRC = "hippolyzer/lib/proxy/circuit.py"
+PROXY = "hippolyzer/lib/proxy/lludp_proxy.py"
+SESS = "hippolyzer/lib/proxy/sessions.py"
 
 _EVICT = ("        if len(self.injections) == self.injections.maxlen:\n"
           "            # ID is about to fall off, old enough we can just add\n"
@@ -189,6 +191,27 @@ VARIANTS = [
                 "                message.packet_id = fwd_injections.gen_injectable_id()\n            finally:\n"
                 "                message.finalized = True\n            message.synthetic = True\n"},
         {"file": CIRC, "old": "        elif not message.synthetic:\n", "new": "        elif not message.synthetic:\n            message.finalized = True\n"}]},
+    # ------------------------------------------------------------------ R7 nothing goes around / outlives the trackers
+    {"name": "R7 unparseable datagrams relayed through the base class", "file": PROXY, "expect": "C04.R7",
+     "old": "        message = self.deserializer.deserialize(packet.data)\n        message.direction = packet.direction\n",
+     "new": "        try:\n            message = self.deserializer.deserialize(packet.data)\n        except ValueError:\n"
+            "            return super().handle_proxied_packet(packet)\n        message.direction = packet.direction\n"},
+    {"name": "R7 live circuit torn down and rebuilt on request", "file": SESS, "expect": "C04.R7",
+     "old": "            if region.circuit_addr == circuit_addr:\n                if not region.circuit or not region.circuit.is_alive:",
+     "new": "            if region.circuit_addr == circuit_addr:\n                if region.circuit and region.circuit.is_alive and transport is not None:\n"
+            "                    region.circuit.disconnect()\n                if not region.circuit or not region.circuit.is_alive:"},
+    {"name": "R7 circuit rebuilt unconditionally", "file": SESS, "expect": "C04.R7",
+     "old": "                if not region.circuit or not region.circuit.is_alive:\n                    logging_hook = None",
+     "new": "                if True:\n                    logging_hook = None"},
+    {"name": "P R7 dead circuit cleaned up before it is replaced", "file": SESS, "expect": "silent",
+     "old": "                if not region.circuit or not region.circuit.is_alive:\n                    logging_hook = None",
+     "new": "                if not region.circuit or not region.circuit.is_alive:\n                    if region.circuit and not region.circuit.is_alive:\n"
+            "                        region.circuit.disconnect()\n                    logging_hook = None"},
+    {"name": "P R1/R2/R4 deque read through a local alias and a fullness property", "expect": "silent", "edits": [
+        {"file": CIRC, "old": "        if len(self.injections) == self.injections.maxlen:\n", "new": "        if self._full:\n"},
+        {"file": CIRC, "old": "    def gen_injectable_id(self) -> int:\n",
+         "new": "    @property\n    def _full(self):\n        return len(self.injections) == self.injections.maxlen\n\n    def gen_injectable_id(self) -> int:\n"},
+        {"file": CIRC, "old": "        for packet_id in reversed(self.injections):\n", "new": "        tracked = self.injections\n        for packet_id in reversed(tracked):\n"}]},
     # ------------------------------------------------------------------ documented limits
     {"name": "X forward shift boundary < -> <= (value-level)", "file": CIRC, "expect": "miss",
      "old": "if new_id < packet_id and new_id not in self.injections:", "new": "if new_id <= packet_id and new_id not in self.injections:"},
